@@ -382,3 +382,31 @@ class Segment:
         self.then = []
     def decode(self, model): return {'graph': self.post.decode(model), 'then': [normalize_then(t.op_json(model), t.decode(model), self.post.mir) for t in self.then]}
     def op_json(self, model): return {'op': 'segment', 'roots': [i for i in range(self.world.N) if ev(model, self.sel[i])], 'then': [t.op_json(model) for t in self.then]}
+
+class Errors:
+    """walk(..).errors() drained: `steps` calls of ModuleGraphErrorIterator::next"""
+    def __init__(self, eng, world, opts, rootsel, steps, graph_ptr=None):
+        mir = eng.mir
+        self.world, self.opts, self.rootsel = world, opts, rootsel
+        it = eng.call(mir.find('ModuleGraph', 'walk'), [graph_ptr or world.ptr, roots_iter(world, rootsel), opts.value()], TRUE)
+        eit = eng.call(mir.find('ModuleEntryIterator', 'errors'), [it], TRUE)
+        self.root = Root(eit, 'error-iter'); ptr = Ptr([(TRUE, (self.root, ()))])
+        NEXT = mir.find('ModuleGraphErrorIterator', 'next', 'Iterator')
+        self.es = []
+        for k in range(steps):
+            r = eng.call(NEXT, [ptr], TRUE)
+            some = opt_is_some(r); p = opt_payload(r)
+            if p is None or z3.is_false(some):
+                self.es.append({'some': FALSE, 'cat': BV(0, 8), 'kind': BV(0, 8), 'spec': BV(255, 8), 'rid': BV(0, 16)}); continue
+            f = graph_error_fields(eng, p); f['some'] = some
+            self.es.append(f)
+    def decode(self, model):
+        out = []
+        for e in self.es:
+            if not ev(model, e['some']): break
+            cat = ['module', 'resolution', 'types_resolution'][ev(model, e['cat'])]
+            out.append({'cat': cat, 'kind': ev(model, e['kind']), 'specifier': ev(model, e['spec']), 'rid': ev(model, e['rid'])})
+        return {'errors': out}
+    def op_json(self, model):
+        d = {'op': 'errors', 'roots': [i for i in range(self.world.N) if ev(model, self.rootsel[i])]}
+        d.update(self.opts.to_json(model)); return d
